@@ -36,6 +36,10 @@
 
 #include <fcntl.h>
 #include <sys/wait.h>
+#include <sys/resource.h>
+#include <sys/time.h>
+#include <csignal>
+#include <cstring>
 #include <unistd.h>
 
 namespace pbt {
@@ -270,7 +274,8 @@ struct Runtime {
   // The in-flight case is kept by pointer and only serialised if the process dies (sanitizer death
   // callback / fatal signal), so cheap properties do not pay a syscall per case.
   const Ctx* inflight = nullptr;
-  void writeCurrent(const Ctx& c) { inflight = &c; }
+  unsigned long caseSerial = 0;  // watchdog: distinguishes successive cases living at one address
+  void writeCurrent(const Ctx& c) { inflight = &c; ++caseSerial; }
   void dumpInflight() {
     if (!inflight) return;
     const Ctx& c = *inflight;
@@ -343,8 +348,20 @@ extern "C" void __sanitizer_set_death_callback(void (*)(void));
 inline Runtime*& activeRuntime() { static Runtime* r = nullptr; return r; }
 inline void onDeath() { if (activeRuntime()) activeRuntime()->dumpInflight(); }
 inline void onFatalSignal(int sig) { onDeath(); ::signal(sig, SIG_DFL); ::raise(sig); }
+// Hang watchdog: a profiling timer ticks every 60 s of CPU time of this process; a case that is still the one in flight
+// after five ticks (>= 4 min of CPU on one case; ordinary cases take milliseconds) is dumped like a crash and the worker
+// exits, so that a non-terminating library call becomes a reproducible failure instead of a check that never returns.
+inline void onWatchdogTick(int) {
+  static unsigned long lastSerial = 0; static int same = 0;
+  Runtime* rt = activeRuntime();
+  if (!rt || !rt->inflight) { same = 0; return; }
+  if (rt->caseSerial == lastSerial) { if (++same >= 4) { onDeath(); ::_exit(80); } }
+  else { lastSerial = rt->caseSerial; same = 0; }
+}
 inline void installDeathHooks(Runtime& rt) {
   activeRuntime() = &rt;
+  { struct sigaction sa; std::memset(&sa, 0, sizeof sa); sa.sa_handler = onWatchdogTick; sa.sa_flags = SA_RESTART; ::sigaction(SIGPROF, &sa, nullptr);
+    struct itimerval it; it.it_interval.tv_sec = 60; it.it_interval.tv_usec = 0; it.it_value = it.it_interval; ::setitimer(ITIMER_PROF, &it, nullptr); }
   __sanitizer_set_death_callback(onDeath);
   std::set_terminate([] { onDeath(); std::abort(); });
 }
@@ -371,7 +388,8 @@ inline Verdict runForked(const PropFn& fn, Runtime& rt, const std::vector<int64_
   const pid_t pid = ::fork();
   if (pid == 0) {
     ::close(fds[0]);
-    ::alarm(static_cast<unsigned>(timeoutS));
+    { struct rlimit rl; rl.rlim_cur = static_cast<rlim_t>(timeoutS); rl.rlim_max = static_cast<rlim_t>(timeoutS + 2); ::setrlimit(RLIMIT_CPU, &rl); }
+    ::alarm(static_cast<unsigned>(timeoutS) * 20u);  // wall-clock backstop only: expiry is never a verdict
     // silence sanitizer chatter of shrink candidates
     if (!std::getenv("VERIF_VERBOSE")) { int devnull = ::open("/dev/null", O_WRONLY); if (devnull >= 0) ::dup2(devnull, 2); }
     TapeSrc src(tape);
@@ -398,7 +416,8 @@ inline Verdict runForked(const PropFn& fn, Runtime& rt, const std::vector<int64_
   (void)rt;
   const bool clean = WIFEXITED(status) && WEXITSTATUS(status) == 0;
   if (!clean || buf.empty()) {
-    if (WIFSIGNALED(status) && WTERMSIG(status) == SIGALRM) return fail("timeout", "case exceeded " + std::to_string(timeoutS) + " s");
+    if (WIFSIGNALED(status) && (WTERMSIG(status) == SIGXCPU || WTERMSIG(status) == SIGKILL)) return fail("timeout", "case exceeded " + std::to_string(timeoutS) + " s of CPU time");
+    if (WIFSIGNALED(status) && WTERMSIG(status) == SIGALRM) return discard("case starved of CPU (wall-clock backstop)");
     return fail("crash", WIFSIGNALED(status) ? "killed by signal " + std::to_string(WTERMSIG(status)) : "abnormal exit " + std::to_string(WEXITSTATUS(status)));
   }
   std::istringstream is(buf);
@@ -412,7 +431,9 @@ inline Verdict runForked(const PropFn& fn, Runtime& rt, const std::vector<int64_
 
 // Run a piece of a case in a forked child under a CPU-time limit.  Used where the library call may legitimately take
 // very long (e.g. power sets of power sets): a timeout is "inconclusive", never a violation; a crash is a failure.
-struct ChildResult { enum { OK, TIMEOUT, CRASH } status = OK; Verdict verdict; std::string crashInfo; };
+// TIMEOUT: the child used up `timeoutS` seconds of CPU time (load independent).  STARVED: it did not get that much CPU
+// within 20x the wall time - never a verdict, always inconclusive.
+struct ChildResult { enum { OK, TIMEOUT, CRASH, STARVED } status = OK; Verdict verdict; std::string crashInfo; };
 inline ChildResult inChild(const std::function<Verdict()>& fn, int timeoutS) {
   ChildResult out;
   int fds[2];
@@ -421,7 +442,8 @@ inline ChildResult inChild(const std::function<Verdict()>& fn, int timeoutS) {
   const pid_t pid = ::fork();
   if (pid == 0) {
     ::close(fds[0]);
-    ::alarm(static_cast<unsigned>(timeoutS));
+    { struct rlimit rl; rl.rlim_cur = static_cast<rlim_t>(timeoutS); rl.rlim_max = static_cast<rlim_t>(timeoutS + 2); ::setrlimit(RLIMIT_CPU, &rl); }
+    ::alarm(static_cast<unsigned>(timeoutS) * 20u);
     Verdict v;
     try { v = fn(); } catch (const std::exception& e) { v = fail("escaped-exception", std::string("std::exception escaped: ") + e.what()); } catch (...) { v = fail("escaped-exception", "non-std exception"); }
     std::string s = std::to_string(static_cast<int>(v.kind)) + "\n" + v.oracle + "\n";
@@ -436,7 +458,8 @@ inline ChildResult inChild(const std::function<Verdict()>& fn, int timeoutS) {
   while ((r = ::read(fds[0], tmp, sizeof tmp)) > 0) buf.append(tmp, static_cast<size_t>(r));
   ::close(fds[0]);
   int status = 0; ::waitpid(pid, &status, 0);
-  if (WIFSIGNALED(status) && WTERMSIG(status) == SIGALRM) { out.status = ChildResult::TIMEOUT; return out; }
+  if (WIFSIGNALED(status) && (WTERMSIG(status) == SIGXCPU || WTERMSIG(status) == SIGKILL)) { out.status = ChildResult::TIMEOUT; return out; }
+  if (WIFSIGNALED(status) && WTERMSIG(status) == SIGALRM) { out.status = ChildResult::STARVED; return out; }
   if (!(WIFEXITED(status) && WEXITSTATUS(status) == 0) || buf.empty()) {
     out.status = ChildResult::CRASH;
     out.crashInfo = WIFSIGNALED(status) ? "killed by signal " + std::to_string(WTERMSIG(status)) : "abnormal exit " + std::to_string(WEXITSTATUS(status));
